@@ -348,19 +348,17 @@ impl<Tz: TimeZone> DateTime<Tz> {
     #[inline]
     #[must_use]
     pub const fn timestamp_nanos_opt(&self) -> Option<i64> {
-        let mut timestamp = self.timestamp();
-        let mut subsec_nanos = self.timestamp_subsec_nanos() as i64;
-        // `(timestamp * 1_000_000_000) + subsec_nanos` may create a temporary that underflows while
-        // the final value can be represented as an `i64`.
-        // As workaround we converting the negative case to:
-        // `((timestamp + 1) * 1_000_000_000) + (ns - 1_000_000_000)``
+        // Compute in `i128`: `timestamp * 1_000_000_000` alone may leave the range of an `i64` while
+        // the final value can be represented (negative timestamps, and leap seconds whose
+        // nanosecond field exceeds 999,999,999).
         //
         // Also see <https://github.com/chronotope/chrono/issues/1289>.
-        if timestamp < 0 {
-            subsec_nanos -= 1_000_000_000;
-            timestamp += 1;
+        let nanos =
+            self.timestamp() as i128 * 1_000_000_000 + self.timestamp_subsec_nanos() as i128;
+        if nanos < i64::MIN as i128 || nanos > i64::MAX as i128 {
+            return None;
         }
-        try_opt!(timestamp.checked_mul(1_000_000_000)).checked_add(subsec_nanos)
+        Some(nanos as i64)
     }
 
     /// Returns the number of milliseconds since the last second boundary.
